@@ -152,7 +152,7 @@ def main():
                    source_commits=[], add_only=True),
         engines=[dict(name="runner", path="run.py", serves_properties=sorted(CHECKS), kind_free_text="Hypothesis-driven generated search sharded over 16 processes; compiled cycle simulator (lib/fastsim.py) with stock migen.sim as confirming backend; independent reference models as oracles")],
         checks=checks,
-        notes="All checks: cwd=/verif, read VERIF_SEED, write evidence/<id>.json, exit 0/1/2 (2 = harness error, never a verdict). Known findings: known_findings.json.",
+        notes="All checks: cwd=/verif, read VERIF_SEED, write evidence/<id>.json, exit 0/1/2 (2 = harness error, never a verdict). Known findings: known_findings.json. The first confirmed violation decides a run (remaining shards are not awaited; VERIF_ALL_SHARDS=1 collects all). Sensitivity: 120 seeded changes by independent sub-agents under seeded/ and 46 hand-written mutants (tools/selftest_mutants.py, results in mutants/results.json, tables in DESIGN.md 8.4/8.5).",
         not_applicable=na)
     with open(os.path.join(ROOT, "MANIFEST.json"), "w") as f:
         json.dump(man, f, indent=1)
